@@ -14,12 +14,24 @@ from . import astx
 OP_LIKE = ["Count", "Select", "Where", "First", "Sum", "Max", "Min", "len", "SelectMany", "Aggregate", "MetaData"]
 
 
+def _is_md(n):
+    return isinstance(n, ast.Call) and isinstance(n.func, ast.Name) and n.func.id == "MetaData"
+
+
 def _exprs(tree):
-    """every expression node in Load position with its (parent, field, index)"""
+    """every expression node in Load position with its (parent, field, index); the dictionary argument of a MetaData wrapper is left
+    alone (the properties speak of well-formed wrappers with a literal dictionary)"""
     out = []
 
     def go(n):
         for f in n._fields:
+            if _is_md(n) and f in ("args", "keywords"):
+                if n.args:
+                    a0 = n.args[0]
+                    if isinstance(a0, ast.expr):
+                        out.append((n, "args", 0, a0))
+                    go(a0)
+                continue
             v = getattr(n, f, None)
             if isinstance(v, list):
                 for i, x in enumerate(v):
@@ -68,7 +80,7 @@ def embellish(rnd, q, snippets=(), n_max=4, kinds=None):
 
     def t_call_keywords(slot):
         p, f, i, x = slot
-        calls = [c for c in ast.walk(x) if isinstance(c, ast.Call)]
+        calls = [c for c in ast.walk(x) if isinstance(c, ast.Call) and not _is_md(c)]
         if not calls:
             return False
         c = rnd.choice(calls)
